@@ -95,7 +95,8 @@ def run(sc, external, env_extra=None):
     signal.signal(signal.SIGALRM, alarm)
     signal.alarm(int(DEADLINE))
     try:
-        code, outcome = outcome_of(lambda: plan.run_step(step, config=config(sc, external)))
+        kw = {"variables": sc["start"]} if sc.get("start") else {}
+        code, outcome = outcome_of(lambda: plan.run_step(step, config=config(sc, external), **kw))
     finally:
         signal.alarm(0)
         for k, v in old_env.items():
@@ -151,13 +152,14 @@ def extra_scenarios(tier, seed):
     out = []
     if tier == "quick":
         kills, methods = (1, 3, 4), ("slsqp",)
-        pairs = [{"method": "slsqp", "con": True, "maxfun": 6}, {"method": "cobyla", "mask": True, "maxfun": 8}]
+        pairs = [{"method": "slsqp", "con": True, "maxfun": 6, "start": [1.0, -1.0, 0.25]}, {"method": "cobyla", "mask": True, "maxfun": 8}]
     else:
         kills, methods = (-1, 1, 2, 3, 4, 5, 6), ("slsqp", "cobyla", "differential_evolution")
         pairs = [{"method": "slsqp", "con": True, "maxfun": 10}, {"method": "slsqp", "mask": True}, {"method": "slsqp", "rel": True, "maxfun": 6},
                  {"method": "cobyla", "mask": True, "maxfun": 8}, {"method": "cobyla", "con": True, "maxfun": 8},
                  {"method": "differential_evolution", "maxfun": 10}, {"method": "l-bfgs-b", "maxfun": 6}, {"method": "nelder-mead", "maxfun": 8},
-                 {"method": "slsqp", "nanAt": 3}, {"method": "tnc", "maxfun": 6}]
+                 {"method": "slsqp", "nanAt": 3}, {"method": "tnc", "maxfun": 6},
+                 {"method": "slsqp", "maxfun": 6, "start": [1.0, -1.0, 0.25]}, {"method": "cobyla", "maxfun": 6, "start": [0.0, 0.5, 1.0], "mask": True}]
     for m in methods:
         for k in kills:
             out.append({"kind": "fault", "fault": "kill", "after": k, "method": m, "maxfun": 12})
